@@ -146,10 +146,8 @@ def _spec_value(form, kind, param, modes, nd, short=False):
 
 @st.composite
 def _single_case(draw, kind, form, ranks=None):
-    # N6: simplex_prox returns a 1-D vector for an (n, 1) matrix, so simplex / soft_sparsity with rank 1 break
-    # the factor shape; rank 1 lives in its own sub-checks for these two kinds
     if ranks is None:
-        ranks = (2, 3) if kind in RADIUS_KINDS else (1, 3)
+        ranks = (1, 3)
     c = draw(_run_part(ranks=ranks))
     nd = len(c["x"]["s"])
     param = _param(draw, kind)
@@ -178,12 +176,6 @@ def _double_case(draw, forms):
     f1, f2 = forms
     if draw(st.booleans()):
         f1, f2 = f2, f1
-    if c["rank"] == 1 and (k1 in RADIUS_KINDS or k2 in RADIUS_KINDS):
-        c["rank"] = 2      # N6 class (rank 1 with simplex / soft_sparsity) is searched in */rank1
-        if c["init"] == "user":
-            c["init"] = "svd"
-            c.pop("uinit", None)
-            c.pop("fixed", None)
     c["specs"] = [{"kind": k1, "form": f1, "param": _param(draw, k1), "modes": m1, "short": False},
                   {"kind": k2, "form": f2, "param": _param(draw, k2), "modes": m2, "short": False}]
     return c
@@ -307,6 +299,7 @@ def subchecks(tier):
         for form in ("scalar", "list_full", "list_partial", "dict"):
             S.append(SubCheck(f"{kind}/{form}", _single_case(kind, form), o_feasible, quick=50, thorough=500,
                               discard_exc=LIN))
+    # regression class of N6 (fixed: simplex_prox used to drop the column axis of an (n, 1) matrix)
     for kind in RADIUS_KINDS:
         S.append(SubCheck(f"{kind}/rank1", _single_case(kind, "dict", ranks=(1, 1)), o_feasible, quick=40, thorough=300,
                           discard_exc=LIN))
